@@ -10,6 +10,12 @@ E2 bounded grammar enumeration on the real Substance class.  Four disjoint strat
              size bound with up to 2 "decorations" (a count, a non-default separator, an explicit ' * n', a
              substituted species) on the plain formula;
   algebra    a + b, a * n, (a + b) * n, a * n + b on substances built from a list of formulas.
+  history    E1 exploration of operation histories on LIVE substances: start objects (CO2 from string and from
+             dictionary, Ca(OH)2) x every sequence of 1..2 (thorough 3) operations from {add(existing species, n),
+             add(new species, n), + substance sharing a species, + disjoint substance, * k}, unpruned; after the
+             last step the object is compared with the reference counts dict.  In every stratum the totals the object
+             itself holds (composite_mass / proportion_norm = "Total mass" / "Total number" of print()) must equal
+             the count-weighted sums as well, not only the 'sum' row of the table.
 
 Oracle: the AST is expanded to a multiset of species by refmodels/materials_ref.py; per-species data come
 straight from PT_DATA (N = A - Z, e = Z + q, m = m_iso + q m_e, abundance-weighted mean / arg-max abundance).
@@ -35,7 +41,8 @@ LEVEL = "exploration"
 RULE = ("a case is one (formula string, isotope mode) or one (algebraic expression over formulas, mode); strata are "
         "disjoint by construction (single species / flat two-species / everything else / algebra) and strings are "
         "de-duplicated inside each stratum; non-trivial = species stratum: every distinct species spelling; pair and "
-        "structure strata: formula with >= 2 species occurrences or a group or a count; algebra: every expression")
+        "structure strata: formula with >= 2 species occurrences or a group or a count; algebra: every expression; "
+        "history: every (start object, mode, operation sequence), all distinct, none pruned")
 ASSUMPTIONS = [
     "PT_DATA and the unit-table rows Da, [m_e], [m_p], [m_n] are read as published data (the oracle does not "
     "re-derive isotope masses)",
@@ -63,6 +70,19 @@ NSHARD_C = 96
 
 ALG_FORMULAS = ["H2O", "NaCl", "Ca(OH)2", "CO2", "C2H5OH", "Fe{56+3}2O{-2}3", "D2O{17}", "NaHCO3", "[e]", "O2"]
 ALG_N = [2, 3, 0.5]
+
+# operation histories on live substances (E1): every sequence of 1..HDEPTH operations on every start object
+HIST_STARTS = {          # id -> (constructor argument, counts written by hand)
+    "CO2:str": ("CO2", {"C": 1, "O": 2}),
+    "CO2:dict": ({"C": 1, "O": 2}, {"C": 1, "O": 2}),
+    "Ca(OH)2:str": ("Ca(OH)2", {"Ca": 1, "O": 2, "H": 2}),
+}
+HIST_OTHERS = {          # right operands of '+': formula -> counts in component order
+    "CO": [["C", 1], ["O", 1]], "H2O": [["H", 2], ["O", 1]], "N2": [["N", 2]],
+}
+HIST_OPS = [["add", "O", 2], ["add", "C", 1], ["add", "N", 1],
+            ["plus", "CO"], ["plus", "H2O"], ["plus", "N2"], ["mul", 2], ["mul", 0.5]]
+HDEPTH = dict(quick=2, thorough=3)
 
 
 # ------------------------------------------------------------------------------------------ species stratum
@@ -350,6 +370,14 @@ def _compare_substance(sub, case, s, counts, natural, tags):
     for f, rel in (("Z", 1e-12), ("N", 1e-12), ("e", 1e-12), ("mass", 1e-10)):
         if not R.close(r[f], tot[f], rel, abs_=1e-12):
             return failure(sub, case, tot, {k: float(r[k]) for k in tot}, tags, "totals-differ:" + f)
+    # the totals the object itself holds and prints ("Total mass", "Total number" of Substance.print())
+    o = outcome(lambda: (float(s.composite_mass.value("Da")), float(s.proportion_norm)))
+    if o[0] == "err":
+        return failure(sub, case, "composite_mass / proportion_norm", list(o), tags, "raises:" + o[1] + ":totals")
+    if not R.close(o[1][0], tot["mass"], 1e-10):
+        return failure(sub, case, tot["mass"], o[1][0], tags, "total-mass-attribute-differs")
+    if not R.close(o[1][1], sum(counts.values()), 1e-12):
+        return failure(sub, case, float(sum(counts.values())), o[1][1], tags, "total-number-attribute-differs")
     return None
 
 
@@ -444,6 +472,32 @@ def check_algebra(kind, a, b, n, natural):
     return _compare_substance("algebra", case, o[1], exp, natural, tags)
 
 
+# ------------------------------------------------------------------------------------------ histories
+def _hist_ops(history):
+    """operations with the '+' operand spelled out as [key, amount] pairs for the reference model"""
+    return [["plus", HIST_OTHERS[o[1]]] if o[0] == "plus" else o for o in history]
+
+
+def check_history(start, natural, history):
+    """apply the history to a live Substance; compare the final object with the reference counts"""
+    from scinumtools.materials import Substance
+    arg, counts0 = HIST_STARTS[start]
+    case = dict(start=start, natural=natural, history=history)
+    mops = _hist_ops(history)
+    counts = R.model_run(counts0, mops)
+    tags = R.history_tags(counts0, mops) + ["natural" if natural else "abundant", "input:" + start.split(":")[1]]
+    formulas = [o[1] for o in history if o[0] == "plus"]
+
+    def run():
+        obj = Substance(dict(arg) if isinstance(arg, dict) else arg, natural=natural)
+        it = iter(formulas)
+        return R.real_run(obj, mops, lambda pairs: Substance(next(it), natural=natural), False)
+    o = outcome(run)
+    if o[0] == "err":
+        return failure("history", case, "history executed", list(o), tags, "raises:" + o[1]), counts
+    return _compare_substance("history", case, o[1], counts, natural, tags), counts
+
+
 # ------------------------------------------------------------------------------------------ plan / shards
 def init_worker():
     from ..isolation import tables_snapshot
@@ -476,6 +530,10 @@ def plan(tier, seed):
         shards.append(("structure", k, win))
     for a in ALG_FORMULAS:
         shards.append(("algebra", a))
+    for start in HIST_STARTS:
+        for nat in (False, True):
+            for first in range(len(HIST_OPS)):
+                shards.append(("history", start, nat, first, HDEPTH[tier]))
     return shards
 
 
@@ -564,7 +622,7 @@ def run_shard(desc):
                         sh.add_to_set("adjacency", t)
                 if level == 2 and len(sh.samples) < 1:
                     sh.sample(dict(formula=text))
-                sh.max_depth = max(sh.max_depth, R.depth(ast))
+                sh.add_to_set("nesting", R.depth(ast))
     elif kind == "algebra":
         for c in _alg_cases(desc[1]):
             for nat in (False, True):
@@ -578,6 +636,26 @@ def run_shard(desc):
                     sh.fail(bad)
                 _restore()
         sh.sample(dict(algebra="(%s + NaCl) * 2" % desc[1]))
+    elif kind == "history":
+        _, start, nat, first, depth = desc
+        for h in R.histories(HIST_OPS, depth):
+            if h[0] != HIST_OPS[first]:
+                continue
+            bad, counts = check_history(start, nat, h)
+            sh.evaluations += 1
+            sh.nontrivial += 1
+            sh.transitions += len(h)
+            sh.traces += 1
+            sh.add_to_set("hstates", R.state_key(start.split(":")[0] + (":nat" if nat else ":abu"), counts))
+            sh.add_to_set("hdepth", len(h))
+            for t in R.history_tags(HIST_STARTS[start][1], _hist_ops(h)):
+                if t.startswith("last:"):
+                    sh.count("history:" + t)
+            if bad:
+                sh.fail(bad)
+            _restore()
+            if len(h) == 2 and len(sh.samples) < 1:
+                sh.sample(dict(start=start, natural=nat, history=h))
     return sh
 
 
@@ -586,6 +664,8 @@ def replay(rec):
     try:
         if rec["sub"] == "algebra":
             return check_algebra(c["op"], c["a"], c["b"], c["n"], c["natural"])
+        if rec["sub"] == "history":
+            return check_history(c["start"], c["natural"], c["history"])[0]
         bad, _ = check_formula(rec["sub"], c["ast"], c["natural"])
         if bad is not None:
             extra = [t for t in rec.get("tags", []) if t.startswith("position:")]
@@ -608,7 +688,17 @@ def finish(total, tier, seed):
             raise HarnessError("vacuous run: no case counted under " + key)
     if not any(k.startswith("structure:accepted:deco=2") for k in h):
         raise HarnessError("vacuous run: no 2-decoration structure was accepted")
+    for key in ("add-existing", "add-new", "plus-shared", "plus-shared-last", "plus-disjoint", "mul"):
+        if not h.get("history:last:" + key):
+            raise HarnessError("vacuous run: no history ends with " + key)
+    hstates = total.sets.get("hstates", set())
+    total.states = len(hstates)
+    total.max_depth = max(total.sets.get("hdepth", {0}))
     return dict(
+        states=len(hstates), transitions=total.transitions, traces_validated_against_impl=total.traces,
+        max_depth=total.max_depth, max_nesting=max(total.sets.get("nesting", {0})),
+        history_bounds=dict(starts=sorted(HIST_STARTS), operations=HIST_OPS, depth=HDEPTH[tier],
+                            isotope_modes=["natural", "abundant"], pruning="none (every history executed)"),
         bounds=dict(species="118 elements x {unspecified, each of 354 tabulated isotopes} x charge {none,+,-,+2,-3} "
                             "+ [p] [n] [e] D T; each alone, counted and as left/right neighbour",
                     pair="11 x 11 species x counts {none,2,3,12} x separators {'',' ',' + '} (+ explicit ' * n')",
@@ -633,7 +723,10 @@ MANIFEST = dict(
          "D, T; alone, counted, as left/right neighbour; both isotope modes), every ordered pair of an 11-species "
          "alphabet x counts x separators, every formula shape up to 5 species occurrences / 3 groups / nesting 3 with "
          "<= 1 decoration and up to 4 / 2 / 2 with <= 2 decorations (count, blank or explicit '+', explicit '* n', "
-         "substituted or repeated species), and a+b, a*n, (a+b)*n, a*n+b over 10 formulas. Counts compared exactly, "
+         "substituted or repeated species), a+b, a*n, (a+b)*n, a*n+b over 10 formulas, and every history of <= 2 "
+         "(thorough 3) operations {add existing/new species, + sharing/disjoint substance, * k} on 3 live start "
+         "substances in both modes, compared with a counts dict after the last step (table rows, sum row and the "
+         "object's own total mass / total number). Counts compared exactly, "
          "Z/N/e totals to 1e-12, masses to 1e-10. Quick runs the core plus one seed-selected window of 32.",
     note="Trusted: PT_DATA and four unit-table rows as data, the 5-line reference expansion. Not covered: explicit "
          "operators without blanks, '* n' mixed with implicit addition, unspecified isotopes of the 34 elements "
